@@ -23,6 +23,9 @@ S1 = Svc(TA, "s1._a._tcp.local.", "h1.local.", 80, b"\x03a=b", [bytes([10, 0, 0,
 Z, Y = "z._b._tcp.local.", "y._b._tcp.local."
 
 # (name, datagram, source port, contains a QU question)
+W = "w._b._tcp.local."
+
+
 def alphabet() -> List[Tuple[str, bytes, int, bool]]:
     q = wire.query
     a: List[Tuple[str, bytes, int, bool]] = [
@@ -47,6 +50,11 @@ def alphabet() -> List[Tuple[str, bytes, int, bool]]:
         # datagrams beyond the usual 1460 bytes (a single large record makes them legal up to 8966)
         ("jumbo-qm-srv", q([("Q", S1.name, 33, 1)], answers=[("TXT", "big._x._tcp.local.", 1, 4500, b"\xfe" + b"k" * 254 + (b"\xff" + b"v" * 255) * 5)]),
          5353, False),
+        # responses that repeat the question they answer, with the unicast-response bit still set (RFC 6762 s.6: to be
+        # ignored in a response): the duplicate guard exempts datagrams holding such a question, so both copies are ingested
+        ("r-quq-short-w", wire.encode(0, 0x8400, [("Q", TB, 12, 0x8001)], [("PTR", TB, 1, 1, W)]), 5353, True),
+        ("r-quq-ptr-w", wire.encode(0, 0x8400, [("Q", TB, 12, 0x8001)], [("PTR", TB, 1, 4500, W),
+                                                                        ("SRV", W, 0x8001, 120, 0, 0, 9, "hw.local.")]), 5353, True),
         ("jumbo-r-z", wire.response([("PTR", TB, 1, 4500, Z), ("TXT", Z, 0x8001, 4500, (b"\xff" + b"t" * 255) * 6)]), 5353, False),
     ]
     return a
